@@ -39,7 +39,7 @@ ASSUMPTIONS = [
     "the scheduler does not model locks: cm_colors takes none; a stall is a HARNESS-ERROR, never a verdict",
     "text results embedding the sandbox path are normalised to <SBX>",
 ]
-PROBES = ["H_runs", "H_ops", "H_probes_after_change", "H_cli_ops", "H_bulk_ops", "H_show_save_ops", "H_slot_reuse", "H_repeat_same_op", "H_alias_family_ops",
+PROBES = ["H_runs", "H_ops", "H_probes_after_change", "H_cli_ops", "H_bulk_ops", "H_show_save_ops", "H_slot_reuse", "H_repeat_same_op", "H_alias_family_ops", "H_bulk_position_probes",
           "T_runs", "T_threads", "T_ops", "T_steps", "T_switches", "T_hot_line_hits", "T_switch_in_optimisation", "T_mode_different",
           "T_mode_same", "T_mode_shared_object", "T_runs_with_switch_inside_call", "P_runs", "P_ops", "P_interpreters"]
 
@@ -79,9 +79,9 @@ def _pure_op(rng, cheap=False):
         t, b, large = _pair(rng, vr, cheap)
         return {"op": "make", "t": t, "b": b, "large": large, "mode": mode, "vr": vr}
     pairs = []
-    for _ in range(rng.randint(0, 3)):
+    for _ in range(rng.randint(0, 4)):
         t, b, large = _pair(rng, vr, cheap)
-        pairs.append([t, b] if rng.random() < 0.6 else [t, b, large])
+        pairs.append([t, b] if rng.random() < 0.5 else [t, b, large if rng.random() < 0.5 else True])
     return {"op": "bulk", "pairs": pairs, "mode": mode, "vr": vr}
 
 
@@ -283,6 +283,13 @@ def _exec_H(trace):
             model.slot_spec[sop["slot"]] = {"t": sop["t"], "b": sop["b"], "large": sop.get("large", False)}
         eq = sop if sop["op"] == "cli" else apiops.fresh_equivalent(sop, model)
         expect.append((eq, _oracle_any(eq, cache)))
+    # one-entry bulk oracles are evaluated lazily in forks of THIS process; to keep them pristine they are
+    # computed before the history starts
+    cache_one = {}
+    for op in trace["ops"]:
+        if op["op"] == "bulk" and len(op["pairs"]) > 1 and not op.get("save"):
+            for entry in op["pairs"]:
+                apiops.oracle({"op": "bulk", "pairs": [entry], "mode": op.get("mode"), "vr": op.get("vr")}, cache_one)
     root = base.new_sandbox("c15h")
     changed_seen = False
     nontrivial = False
@@ -317,6 +324,19 @@ def _exec_H(trace):
             if r.get("mutated"):
                 vio.append({"kind": "object-mutated", "detail": {"index": i, "op": _brief(op), "mutated": r["mutated"]},
                             "features": {"kind": "object-mutated", "op": op["op"]}})
+            # "at any position in a bulk list": element k of a bulk result must be what a one-entry bulk call
+            # for that entry returns in a pristine process
+            if op["op"] == "bulk" and "ret" in r and len(op["pairs"]) > 1 and not op.get("save"):
+                got_list = dec(r["ret"])
+                for k, entry in enumerate(op["pairs"]):
+                    one = apiops.oracle({"op": "bulk", "pairs": [entry], "mode": op.get("mode"), "vr": op.get("vr")}, cache_one)
+                    bump("H_bulk_position_probes")
+                    if "ret" in one and isinstance(got_list, list) and k < len(got_list):
+                        alone = dec(one["ret"])
+                        if isinstance(alone, list) and len(alone) == 1 and alone[0] != got_list[k]:
+                            vio.append({"kind": "position-dependence", "detail": {"index": i, "entry_index": k, "entry": entry, "list": op["pairs"],
+                                                                                   "in_list": repr(got_list[k]), "alone": repr(alone[0])},
+                                        "features": {"kind": "position-dependence", "op": "bulk"}})
             if _colour_changed(op, r):
                 changed_seen = True
     finally:
